@@ -31,7 +31,16 @@ operator is built from: a sum operator stores 0.25 A + R and 0.75 A - R and real
                Orthonormality: a single Cholesky-QR pass of [V, t] loses orthogonality like eps cond([V,t])^2 (measured up to 1.3e-7, and
                6e-6 in the regress case, before the CholeskyQR2 repair; ~1e-13 after), which min_eps does not control; required: <= tau + 4 sqrt(n k) min_eps / ||A||, i.e. at least as good as the
                eigenvector accuracy sqrt(n k) min_eps / ||A|| that the residual test itself implies.
-svd (through symeig of A^H A or A A^H, singular values s in [0.3, 3] by construction):
+Units (homogeneity): A is generated as unitA * (the matrix above) and M as unitM * (...), units drawn independently from
+  {1e-9, 1e-7, 1e-4, 1, 1e3, 1e6} (5 in 12 draws are 1), realised by scaling the leaf tensors of every operator kind.  The pencil
+  then has eigenvalues (unitA/unitM) lam and M-orthonormal vectors X/sqrt(unitM); svd(unit A) = (U, unit S, Vh).  All tolerances above are
+  relative to the scaled magnitudes (||A||, ||M||, lmin, smax, smin are those of the scaled data), so a floor / jitter / threshold that is
+  absolute in the data's units shows.  davidson's min_eps is an absolute bound on A X - M X diag(E), which carries the unit
+  unitA/sqrt(unitM) (svd: unit^2, the Gram matrix): the caller states it in those units (min_eps = drawn value * that unit; the default
+  1e-6 is only used with unit data); the orthonormality allowance uses min_eps sqrt(unitM) / ||A||.  Measured on the unchanged tree:
+  scaled and unscaled davidson cases end identically (300 pairs: same silent / warned outcome).
+  svd documents one absolute floor (s is clamped at 1e-12 before the division): generated s >= 0.3 * 1e-9 = 3e-10 >= 1e-10.
+svd (through symeig of A^H A or A A^H, singular values s in [0.3, 3] * unit by construction):
   tau_s = 1e3 max(m,n) eps (smax/smin)^2;  U^H U = I, Vh Vh^H = I within tau_s;  A v_i = s_i u_i, A^H u_i = s_i v_i, U diag(S) Vh = A
   (full k) and S vs the k extreme scipy svdvals within tau_s smax;  S >= 0;  davidson: tau_s + 4 sqrt(max(m,n) k) min_eps / smin^2.
 
@@ -67,8 +76,9 @@ RULE = ("symeig: prescribed generalised spectra (separated / clustered 1e-3 / ex
         "broadcast by construction); neig in 1..n or None; mode spelled lowest/uppest/uppermost in mixed case; entry points symeig / "
         "lsymeig / usymeig; with and without grad mode. dense: exacteig (named or default) and custom_exacteig, f64/c128, n 2..8 "
         "(thorough 12), 1 in 6 with exactly diagonal A and M. davidson: real, n 8..32 (thorough 64), neig<=4, min_eps in {1e-4..1e-9}, v_init randn/rand/eye, "
-        "max_niter default / sufficient / 1..4 (must then warn). svd: m,n<=8, "
-        "tall/wide/square, real/complex, k in 1..min(m,n) or None, both modes, singular values in [0.3,3] incl. repeated and clustered. "
+        "max_niter default / sufficient / 1..4 (must then warn). Units: A and (independently) M multiplied by a unit in "
+        "{1e-9,1e-7,1e-4,1,1e3,1e6} (all tasks; davidson's min_eps stated in the unit of its residual), tolerances relative. svd: m,n<=8, "
+        "tall/wide/square, real/complex, k in 1..min(m,n) or None, both modes, singular values in [0.3,3]*unit incl. repeated and clustered. "
         "Non-trivial = at least two distinct eigen/singular values and (k < full or M given or a batch dimension > 1 or a "
         "composite/matrix-free operator); distinct by canonical case.")
 ASSUMPTIONS = [
@@ -82,11 +92,14 @@ ASSUMPTIONS = [
     "davidson's start block is generic w.r.t. the eigenvectors (A = S Q diag Q^H S^H with seeded random Q), so mis-convergence from a start "
     "vector orthogonal to a wanted eigenvector is not generated (DESIGN.md section 6)",
     "davidson supports real dtypes only (it transposes without conjugation); complex is generated for the dense paths only",
-    "svd: singular values kept in [0.3, 3] because the second factor is obtained by dividing A v (or A^H u) by s",
+    "svd: singular values kept in [0.3, 3] * unit (condition <= 10) because the second factor is obtained by dividing A v (or A^H u) by s; "
+    "unit >= 1e-9 keeps s >= 3e-10, above the documented floor 1e-12 of that division",
+    "units: symeig / svd are homogeneous (symeig(a A, b M) = (a/b E, X/sqrt(b)), svd(c A) = (U, c S, Vh)); no absolute threshold is documented "
+    "for the forward pass other than svd's 1e-12 floor and davidson's min_eps (which the generated caller scales with the data)",
 ]
 LEVEL_TEXT = ("Exploration against LAPACK (scipy) over generated spectra, operator kinds, batch patterns, neig/mode spellings and methods, "
               "checking validity of the returned pairs and extremality of the returned values separately.")
-LEVEL_NOTE = "trusts scipy.linalg.eigh/svdvals and dense torch.matmul; n<=12 dense, n<=64 davidson, cond(M)<=10"
+LEVEL_NOTE = "trusts scipy.linalg.eigh/svdvals and dense torch.matmul; n<=12 dense, n<=64 davidson, cond(M)<=10, data units 1e-9..1e6"
 TECHNIQUE = "Hypothesis property-based testing: differential oracle (LAPACK) + residual/orthonormality invariants with derived tolerances"
 WALL = {"quick": 300, "thorough": 1800}
 
@@ -142,7 +155,40 @@ def _listed(site):
 
 
 def _fmt(t):
-    return [round(float(v), 12) for v in t.reshape(-1)[:8]]
+    return [float("%.12g" % float(v)) for v in t.reshape(-1)[:8]]
+
+
+# units in which the caller expresses A (and, independently, M): the decompositions are homogeneous, so everything the oracle
+# requires is relative to the scaled magnitudes.  svd documents one absolute floor (s is clamped at 1e-12 before the division):
+# generated singular values are >= 0.3 unit >= 3e-10.
+UNITS = [1e-9, 1e-7, 1e-4, 1.0, 1e3, 1e6]
+UNIT_DRAW = [1.0] * 5 + [1e-9, 1e-9, 1e-7, 1e-7, 1e-4, 1e3, 1e6]
+
+
+def scale_leaves(kind, leaves, c):
+    """leaves of the operator kind realising c * dense_of(kind, leaves): every kind is linear in each leaf; a product is scaled
+    through its first factor only"""
+    if c == 1.0:
+        return leaves
+    if kind == "matmul":
+        return [leaves[0] * c, leaves[1]]
+    return [l * c for l in leaves]
+
+
+def rescale_pencil(p, ua, um):
+    """the pencil (ua A, um M): eigenvalues ua/um lam, M-orthonormal vectors X / sqrt(um); updates what the generator knows"""
+    if ua != 1.0:
+        p.A = p.A * ua
+    if p.M is not None and um != 1.0:
+        p.M = p.M * um
+        p.mscal = p.mscal * um
+        p.m_lmin *= um
+        p.m_norm *= um
+    else:
+        um = 1.0
+    p.lam = p.lam * (ua / um)
+    p.gapscale *= ua / um
+    return p
 
 
 def symeig_case_labels(case, p, k):
@@ -177,8 +223,12 @@ def _run_symeig(case):
     low = case["mode"].lower() == "lowest"
     labels = symeig_case_labels(case, p, k)
     method = case["method"]
-    Aleaves = R.split_leaves(case["aop"], p.A, g)
-    Mleaves = R.split_leaves(case["mop"], p.M, g) if hasM else None
+    ua = float(case.get("ua", 1.0))
+    um = float(case.get("um", 1.0)) if hasM else 1.0
+    labels += ["unitA=%g" % ua, "unitM=%s" % (("%g" % um) if hasM else "none")]
+    Aleaves = scale_leaves(case["aop"], R.split_leaves(case["aop"], p.A, g), ua)
+    Mleaves = scale_leaves(case["mop"], R.split_leaves(case["mop"], p.M, g), um) if hasM else None
+    p = rescale_pencil(p, ua, um)
     Aop = R.make_operator(case["aop"], Aleaves, True)
     Mop = R.make_operator(case["mop"], Mleaves, True) if hasM else None
     opts = dict(case.get("opts") or {})
@@ -252,7 +302,8 @@ def _run_symeig(case):
                 rinf, min_eps, tau_r, n, k, opts, _fmt(E), _fmt(Eref)), labels)
         # Cholesky-QR loses orthogonality like eps*cond([V,t])^2, which min_eps does not control; what the residual test does imply is
         # an eigenvector accuracy of ~sqrt(n k) min_eps / ||A||, and the normalisation is required to be at least that good (factor 4)
-        tol_orth = tau + 4.0 * math.sqrt(n * k) * min_eps / max(float(torch.linalg.matrix_norm(p.A, 2).min()), 1e-300)
+        # (X carries the unit 1/sqrt(unit of M), the residual the unit of A / sqrt(unit of M))
+        tol_orth = tau + 4.0 * math.sqrt(n * k) * min_eps * math.sqrt(um) / max(float(torch.linalg.matrix_norm(p.A, 2).min()), 1e-300)
         tol_val = resolution(n, k, tol_rinf, lmin_case) * (1 + tol_orth) + tau * a_norm / p.m_lmin
     else:
         bad = resn > tau * scale_r
@@ -307,6 +358,7 @@ def _run_svd(case):
     U0 = R.rand_unitary(g, batch, m, dtype)[..., :, :r]
     V0 = R.rand_unitary(g, batch, n, dtype)[..., :, :r]
     sc = R.pick(g, [1.0, 0.5, 2.0], batch) if case.get("affine", True) else torch.ones(tuple(batch), dtype=torch.float64)
+    unit = float(case.get("ua", 1.0))
     S0 = sc[..., None] * torch.tensor(sv, dtype=torch.float64)          # (*batch, r)
     herm = bool(case.get("herm")) and m == n
     if herm:
@@ -322,7 +374,10 @@ def _run_svd(case):
     kind = case["aop"]
     if herm and kind not in R.HERM_KINDS:
         kind = "mv"                                    # the Hermitian-flagged operator kinds only
-    Aleaves = R.split_leaves(kind, A, g)
+    Aleaves = scale_leaves(kind, R.split_leaves(kind, A, g), unit)
+    if unit != 1.0:
+        A = A * unit
+        S0 = S0 * unit
     Aop = R.make_operator(kind, Aleaves, herm)
     smin = float(S0.min())
     smax = max(float(S0.max()), R.leaves_scale(kind, Aleaves))      # data scale (see ref_c05.leaves_scale)
@@ -342,7 +397,8 @@ def _run_svd(case):
     labels = ["svd_method=%s" % method, "svd_mode=%s" % ("lowest" if low else "uppest"), "svd_shape=%s" % ("tall" if m > n else ("wide" if m < n else "square")),
               "svd_aop=%s" % kind, "svd_dtype=%s" % case["dtype"], "svd_spectrum=%s" % spec, "svd_cut=%s" % cut,
               "svd_k=%s" % ("none" if case["k"] is None else ("full" if k == r else "partial")), "svd_batch=%d" % len(batch),
-              "svd_modestr=%s" % case["mode"], "svd_modearg=%s" % case["modearg"], "svd_hermitian_flagged=%s" % herm]
+              "svd_modestr=%s" % case["mode"], "svd_modearg=%s" % case["modearg"], "svd_hermitian_flagged=%s" % herm,
+              "svd_unit=%g" % unit]
 
     def call():
         if case["modearg"] == "default":      # documented default is "uppest"
@@ -465,7 +521,9 @@ def dense_case_st(draw, tier="quick"):
     lam = draw(spectrum_st(n))
     bA, bM = draw(batch_pair_st(tier))
     neig, mode, entry = neig_mode_st(draw, n)
-    return {"lam": lam, "dtype": draw(st.sampled_from(["f64", "c128"])), "batchA": bA, "batchM": bM,
+    ua = draw(st.sampled_from(UNIT_DRAW))
+    um = draw(st.sampled_from(UNIT_DRAW)) if bM is not None else 1.0
+    return {"lam": lam, "dtype": draw(st.sampled_from(["f64", "c128"])), "batchA": bA, "batchM": bM, "ua": ua, "um": um,
             "mkappa": draw(st.sampled_from([1.0, 2.0, 4.0, 10.0])),
             "aop": draw(st.sampled_from(R.HERM_KINDS)), "mop": draw(st.sampled_from(["dense", "dense", "mv", "full", "scaled", "add_du"])),
             "method": draw(st.sampled_from(["exacteig", "custom_exacteig", "default"])), "neig": neig, "mode": mode, "entry": entry,
@@ -523,8 +581,12 @@ def davidson_case_st(draw, tier="quick", known_region=False):
     mkappa = draw(st.sampled_from([1.0, 2.0, 4.0, 10.0]))
     opts = {}
     allowed = allowed_min_eps(n, k, mkappa, bM is not None, min_positive_gap(lam))
-    if 1e-6 not in allowed or draw(st.booleans()):
-        opts["min_eps"] = draw(st.sampled_from(allowed))
+    ua = draw(st.sampled_from(UNIT_DRAW))
+    um = draw(st.sampled_from(UNIT_DRAW)) if bM is not None else 1.0
+    # min_eps is an absolute bound on the entries of A X - M X diag(E), which carry the unit of A / sqrt(unit of M): the caller
+    # states it in those units (the default 1e-6 is meaningful for unit data only)
+    if 1e-6 not in allowed or (ua, um) != (1.0, 1.0) or draw(st.booleans()):
+        opts["min_eps"] = draw(st.sampled_from(allowed)) * (ua / math.sqrt(um))
     if draw(st.booleans()):
         opts["v_init"] = draw(st.sampled_from(["randn", "rand", "eye", "RandN"]))
     c = draw(st.sampled_from(["default", "default", "enough", "enough", "short"]))
@@ -534,7 +596,7 @@ def davidson_case_st(draw, tier="quick", known_region=False):
         opts["max_niter"] = draw(st.integers(1, 4))
     if draw(st.sampled_from([False, False, True])):
         opts["max_addition"] = draw(st.integers(1, 4))
-    return {"lam": lam, "dtype": "f64", "batchA": bA, "batchM": bM, "mkappa": mkappa,
+    return {"lam": lam, "dtype": "f64", "batchA": bA, "batchM": bM, "mkappa": mkappa, "ua": ua, "um": um,
             "aop": draw(st.sampled_from(R.HERM_KINDS)), "mop": draw(st.sampled_from(["dense", "dense", "mv", "full", "scaled", "add_du"])),
             "method": "davidson", "neig": neig, "mode": mode, "entry": entry,
             "nograd": draw(st.sampled_from([False, False, True])), "opts": opts, "seed": draw(st.integers(0, 2 ** 31 - 1))}
@@ -582,9 +644,11 @@ def svd_case_st(draw, tier="quick"):
     if mode == "uppest" and draw(st.booleans()):
         modearg = "default"
     opts = {}
-    if dav and draw(st.booleans()):
-        opts["min_eps"] = draw(st.sampled_from([1e-7, 1e-8, 1e-9]))
-    return {"m": m, "n": n, "sv": sv, "dtype": dtype, "batch": batch, "aop": draw(st.sampled_from(R.GEN_KINDS)), "k": k, "mode": mode,
+    unit = draw(st.sampled_from(UNIT_DRAW))
+    # davidson works on the Gram matrix, whose residual carries unit^2 (default min_eps 1e-6: unit data only)
+    if dav and (unit != 1.0 or draw(st.booleans())):
+        opts["min_eps"] = draw(st.sampled_from([1e-7, 1e-8, 1e-9] if unit == 1.0 else [1e-6, 1e-7, 1e-8, 1e-9])) * unit * unit
+    return {"m": m, "n": n, "sv": sv, "ua": unit, "dtype": dtype, "batch": batch, "aop": draw(st.sampled_from(R.GEN_KINDS)), "k": k, "mode": mode,
             "modearg": modearg, "method": method, "opts": opts, "nograd": draw(st.sampled_from([False, False, True])),
             "herm": draw(st.sampled_from([False, False, True])), "seed": draw(st.integers(0, 2 ** 31 - 1))}
 
